@@ -6,6 +6,8 @@
  *   std::atomic<bool> _closed -> bool (R10: sequential semantics only). */
 typedef struct { iora_mutex _mutex; iora_cv _condNotEmpty; iora_cv _condNotFull; iora_gdeque_u64 _queue; size_t _maxSize; bool _closed; } BlockingQueue;
 #define EXC_invalid_argument 1
+/* R10 ghost: memory order of the last load of each atomic member (shims/iora_atomic.h); not used by any clause of this unit */
+struct { int _closed; } G_ld;
 
 /* monitor invariant: holds whenever the mutex is free (so at entry and exit of every operation, and at every wait) */
 #define BQ_SIZE(q) ((q)->_queue.hi - (q)->_queue.lo)
